@@ -118,6 +118,31 @@ def step (st : State) (w : List String) : State × String :=
     | some l => (st, "reply=" ++ String.join (l.map boolStr))
     | none => (st, "bad-op")
   | "dchain" :: "rlserve" :: _ => (st, "unmodelled")
+  | ["views", "slab", _proto, as, qt] =>
+    -- one chain and one transport reused across peers: every query is answered
+    -- from the view of its own source
+    match typeCode qt with
+    | some t =>
+      let rs := (as.splitOn ",").mapM fun a =>
+        (parseAddr a).map fun (f, v) =>
+          match viewAnswer st.views st.vtypes false f v t with
+          | some k => toString k
+          | none => "none"
+      match rs with
+      | some l => (st, "view=" ++ ",".intercalate l)
+      | none => (st, "bad-op")
+    | none => (st, "bad-op")
+  | ["live", "run", es, peers, _hdr] =>
+    -- the real server: UDP and TCP sockets are reached from 127.0.0.1, DoH from
+    -- the listed peers; a reply exists iff the access list holds the source,
+    -- whatever forwarding header the request carries
+    match parseEntries es, (peers.splitOn ",").mapM parseAddr with
+    | some l, some ps =>
+      let acl := Set.new (if l.isEmpty then openList else l)
+      let lo := boolStr (aclNext acl false Fam.v4 0x7f000001)
+      let doh := String.join (ps.map fun (f, v) => boolStr (aclNext acl false f v))
+      (st, s!"udp={lo} tcp={lo} doh={doh}")
+    | _, _ => (st, "bad-op")
   | ["chain", "run", scs] =>
     match (scs.splitOn ";").mapM parseScript with
     | some hs =>
